@@ -1343,6 +1343,8 @@ pub fn mutate(doc: &mut Doc, m: &str, rng: &mut Rng) -> bool {
                 "null-default-non-null" => (PTy::named("Int", true), DefaultV::Val(FieldValue::Null)),
                 "object-default" => (PTy::named("Int", false), DefaultV::Bad),
                 "enum-default" => {
+                    // regression stream of F-C19-1 (repaired): the enum constant is inspected by
+                    // is_valid_value — it panicked (`unimplemented!`), now an invalid default value
                     if rng.chance(1, 2) {
                         (PTy::named("Int", false), DefaultV::Val(FieldValue::Enum("FOO".into())))
                     } else {
